@@ -320,6 +320,12 @@ func (s *listSys) checkListing() ([]*engine.Violation, int64) {
 				lp := s.w.List(s.bucket, q)
 				evals++
 				cond := delimClass(d) + "," + prefixClass(p, d)
+				for _, k := range keys {
+					if strings.ContainsAny(k, "\x01\x0b\uFFFE") {
+						cond += ",key-with-a-character-xml-1.0-cannot-carry"
+						break
+					}
+				}
 				bad := func(field, msg string) {
 					vs = append(vs, viol(sig("C03", kind, "list", field, cond), "GET /%s?%s with live keys %q: %s", s.bucket, q, keys, msg))
 				}
@@ -724,6 +730,14 @@ func listPlans(c *engine.Ctx, prop string) []listPlan {
 	ur.prefixes = []string{"", "a", "a ", "a%", "a&", "a+", "a<", "a\"", "a/", "a/é", "z", "é", "é/", "é/a&", "€", "\U0001F600", "\xc3"}
 	for _, k := range []drv.Kind{drv.Mem, drv.Bolt, drv.MultiMem, drv.SingleMem} {
 		plans = append(plans, listPlan{cfg: drv.Config{Kind: k}, u: ur, depth: depth - 1})
+	}
+	// keys with characters XML 1.0 cannot carry (control characters, U+FFFE): legal S3 keys
+	if prop == "C03" {
+		ux := newListUniverse("ab/", 1, 2, "a", 0)
+		ux.name = "xml-unrepresentable"
+		ux.keys = []string{"a", "a\x01b", "a\uFFFEb"}
+		ux.prefixes = []string{"", "a"}
+		plans = append(plans, listPlan{cfg: drv.Config{Kind: drv.Mem}, u: ux, depth: 2}, listPlan{cfg: drv.Config{Kind: drv.MultiMem}, u: ux, depth: 2})
 	}
 	// versioned variant (delete-marked keys): version stacks grow with depth, so a smaller universe
 	plans = append(plans, listPlan{cfg: drv.Config{Kind: drv.Mem}, u: newListUniverse("ab/", 3, 3, "a", 6), versioned: true, depth: depth})
